@@ -828,7 +828,14 @@ pub fn lane_bytes(seed: u64) -> Vec<Scenario> {
             }
         }
     }
-    // the early-exit / unread stdin family (finding J): `exit 3` followed by more script text
+    out.extend(lane_early_exit(seed));
+    out
+}
+
+/// the early-exit / unread stdin family (finding J): `exit 3` followed by more script text
+pub fn lane_early_exit(seed: u64) -> Vec<Scenario> {
+    let mut out = vec![];
+    let mut g = G::new(seed ^ 0xea71);
     for script in [false] {
         for kib in [1usize, 8, 30, 63, 64, 65, 71, 128, 205, 1024] {
             for cap in [65536usize, 4096] {
